@@ -196,6 +196,8 @@ int harness_main(int argc, char **argv, PropDef &def)
 	std::vector<uint32_t> lastfail_used;
 	bool have_fail = false;
 	auto t0 = std::chrono::steady_clock::now();
+	auto tfail = t0;
+	double shrink_budget = atof(arg(argc, argv, "--shrink-budget", "40").c_str());
 	uint64_t skipped_budget = 0;
 
 	auto gen = rc::gen::scale(def.tape_scale, rc::gen::container<std::vector<uint32_t>>(rc::gen::arbitrary<uint32_t>()));
@@ -205,6 +207,9 @@ int harness_main(int argc, char **argv, PropDef &def)
 			skipped_budget++;
 			return;   // budget exhausted: remaining cases are not executed (counted, never a verdict)
 		}
+		// shrinking budget: once exceeded, remaining shrink candidates are not executed, which ends the
+		// shrink with the smallest failing case found so far
+		if (have_fail && std::chrono::duration<double>(std::chrono::steady_clock::now() - tfail).count() > shrink_budget) return;
 		if (lfd >= 0) {
 			std::string s = "TAPE1\n";
 			char b[16];
@@ -216,6 +221,7 @@ int harness_main(int argc, char **argv, PropDef &def)
 		CaseResult r = def.run(t);
 		if (!have_fail) st.add(r, t);
 		if (!r.ok) {
+			if (!have_fail) tfail = std::chrono::steady_clock::now();
 			have_fail = true; lastfail = r; lastfail_used = t.used;
 			RC_FAIL(r.why);
 		}
